@@ -1827,7 +1827,10 @@ class AstEval:
         val = {}
         for key_ast, val_ast in zip(arg.keys, arg.values):
             if key_ast is None:
-                val.update(await self.aeval(val_ast))
+                this_val = await self.aeval(val_ast)
+                if not hasattr(this_val, "keys"):
+                    raise TypeError(f"'{type(this_val).__name__}' object is not a mapping")
+                val.update(this_val)
             else:
                 # python evaluates the key before the value
                 this_key = await self.aeval(key_ast)
@@ -1921,7 +1924,15 @@ class AstEval:
         kwargs = {}
         for kw_arg in arg.keywords:
             if kw_arg.arg is None:
-                kwargs.update(await self.aeval(kw_arg.value))
+                this_kwargs = await self.aeval(kw_arg.value)
+                if not hasattr(this_kwargs, "keys"):
+                    raise TypeError(f"argument after ** must be a mapping, not {type(this_kwargs).__name__}")
+                for key in this_kwargs.keys():
+                    if not isinstance(key, str):
+                        raise TypeError("keywords must be strings")
+                    if key in kwargs:
+                        raise TypeError(f"got multiple values for keyword argument '{key}'")
+                    kwargs[key] = this_kwargs[key]
             else:
                 kwargs[kw_arg.arg] = await self.aeval(kw_arg.value)
         #
